@@ -47,6 +47,18 @@ static void string_pair(const ST::string &sa, const S &a, const ST::string &sb, 
     EXPECT_EQ("operator!=:cstr", sa != sb.c_str(), wantc != 0, "");
     EXPECT_EQ("operator==:char8_t", sa == sb.u8_str(), wantc == 0, "");
     EXPECT_EQ("operator!=:char8_t", sa != sb.u8_str(), wantc != 0, "");
+    // ... also when the C string handed in is the object's own c_str(): it still names only the text up to the first NUL
+    {
+        const S ac = cut_at_nul(a);
+        const int wown = ref::compare(a, ac);
+        EXPECT_EQ("compare:own-c_str", sgn(sa.compare(sa.c_str())), wown, "");
+        EXPECT_EQ("operator==:own-c_str", sa == sa.c_str(), wown == 0, "");
+        EXPECT_EQ("operator!=:own-c_str", sa != sa.c_str(), wown != 0, "");
+        EXPECT_EQ("compare:own-u8_str", sgn(sa.compare(sa.u8_str())), wown, "");
+        EXPECT_EQ("compare_i:own-c_str:zero-iff-fold-equal", sa.compare_i(sa.c_str()) == 0, ac.size() == a.size(), "");
+        EXPECT_EQ("compare_n:own-c_str", sgn(sa.compare_n(sa.c_str(), a.size() + 1)), wown, "");
+        EXPECT_EQ("compare:self", sa.compare(sa), 0, "");
+    }
     // case-insensitive: zero exactly for fold-equal, antisymmetric, overloads agree
     const S fa = ref::folded(a), fb = ref::folded(b);
     const int ci = sgn(sa.compare_i(sb));
@@ -316,6 +328,41 @@ static void buffer_phase(const char *tn, const std::vector<T> &alpha)
     }
 }
 
+// Lengths that differ by 2^31 through the public case-insensitive entry points need a real string of 2 GiB (only the
+// common prefix is read): thorough tier, one case.
+static void huge_case_insensitive()
+{
+    if (!vrt::thorough() || vrt::opt().scale < 1.0) return;
+    vrt::require("huge.case_insensitive_checks", 8);
+    vrt::phase("huge_case_insensitive", 1, [&](uint64_t, Rng &) {
+        vrt::case_cpu_budget() = 900;
+        const size_t big = (size_t(1) << 31) + 5;
+        vrt::cur_printf("a string of %zu bytes against its 5-byte case-folded prefix\n", big);
+        ST::char_buffer buf;
+        buf.allocate(big, 'a');
+        const ST::string L = ST::string::from_validated(std::move(buf));
+        const ST::string P("AAAAA"), p("aaaaa");
+        auto chk = [&](const char *what, long got, long want) {
+            vrt::evals();
+            vrt::count("huge.case_insensitive_checks");
+            if (got != want) vrt::violation(sfmt("C06:huge-length:%s", what), sfmt("2^31+5 bytes of 'a' vs \"AAAAA\": got %ld want %ld", got, want));
+        };
+        chk("compare_i:longer-first", sgn(L.compare_i(P)), 1);
+        chk("compare_i:shorter-first", sgn(P.compare_i(L)), -1);
+        chk("compare(ci):longer-first", sgn(L.compare(P, ST::case_insensitive)), 1);
+        chk("less_i", ST::less_i()(P, L), 1);
+        chk("less_i:reversed", ST::less_i()(L, P), 0);
+        chk("equal_i", ST::equal_i()(L, P), 0);
+        chk("compare_ni:within-prefix", sgn(L.compare_ni(P, 5)), 0);
+        chk("compare_ni:beyond-prefix", sgn(L.compare_ni(P, 6)), 1);
+        chk("compare:longer-first", sgn(L.compare(p)), 1);
+        chk("compare:shorter-first", sgn(p.compare(L)), -1);
+        chk("operator<", p < L, 1);
+        chk("compare_i:cstr", sgn(L.compare_i("AAAAA")), 1);
+        vrt::case_cpu_budget() = 30;
+    });
+}
+
 static void body()
 {
     vrt::require("string.pairs", 10000);
@@ -416,6 +463,7 @@ static void body()
     buffer_phase<wchar_t>("wchar_t", std::vector<wchar_t>{0, 1, L'A', 0x7f, 0x80, 0xff, 0xd800, 0xffff, 0x10ffff});
     buffer_phase<char16_t>("char16_t", std::vector<char16_t>{0, 1, u'A', 0x7f, 0x80, 0xff, 0xd800, 0x8000, 0xffff});
     buffer_phase<char32_t>("char32_t", std::vector<char32_t>{0, 1, U'A', 0x7f, 0x80, 0xffff, 0x10ffff, 0x7fffffff, 0x80000000u, 0xffffffffu});
+    huge_case_insensitive();
     vrt::alloc::check_pairing("order");
 }
 
